@@ -34,6 +34,25 @@ def run(ctx):
 def wire_rules(ctx, R, verbs=True):
     """W1-W7.  With verbs=False the per-operation verb table (W5) is left out: C14 / C15 share the encoding rules (what reaches the server
     is what the caller passed), not the operation table."""
+    # ---- W8: nothing on the formatting path answers from a cache keyed by value equality --------------------------------
+    ctx.rule("W8", "the wire form of an argument is computed from the argument each time (no memoisation keyed by ==)")
+    memo = []
+    for f in R.module.all_funcs():
+        decs = " ".join(f.decorators)
+        if "lru_cache" in decs or "functools.cache" in decs or decs.strip() in ("cache",):
+            memo.append(f)
+    for f in memo:
+        marker = [c for c in walk_no_nested(f.node) if isinstance(c, ast.Call) and call_name(c) == "isinstance" and len(c.args) == 2
+                  and any(isinstance(x, ast.Name) and ctx.program.cls(x.id) is not None for x in ast.walk(c.args[1]))]
+        if marker:
+            ctx.violation("W8", f, "memoised-by-equality", "%s is memoised (%s) but its result depends on the TYPE of its argument (%s): a prepared "
+                          "literal and a plain name made of the same bytes compare equal and share one cache entry" % (
+                              f.qualname, ", ".join(f.decorators), norm(marker[0])[:50]), node=f.node,
+                          witness="checkscript('abc') then deletescript('{3+}\\r\\nabc') sends DELETESCRIPT {3+}<CRLF>abc: the server deletes `abc`")
+        else:
+            ctx.notice("W8", "%s is memoised; its result depends on the value of its arguments only" % f.qualname)
+    if not memo:
+        ctx.holds("W8", "no memoised function in %s" % R.module.relpath)
     fmt = R.formatter
     if fmt is None:
         raise AnalysisError("W", "argument formatter not identified (method called by the sender that loops over the arguments)")
